@@ -39,21 +39,89 @@ def quotient(numerator, denominator):
 
 G['quotient'] = quotient
 
-# operator overloads, read from the real pymbolic classes
-_E = C['Expression'].methods
+# operator overloads, read from the real pymbolic classes (INLINE) or replaced by their contracts (CONTRACT)
+INLINE_OPS = {'Expression': {}, 'P_Sum': {}, 'P_Product': {}}
 for _m in ('__add__', '__radd__', '__sub__', '__rsub__', '__mul__', '__rmul__', '__neg__', '__pos__'):
-    _E[_m] = _I('Expression.' + _m)
-_E['__truediv__'] = _I('Expression.__div__')
-_E['__rtruediv__'] = _I('Expression.__rdiv__')
+    INLINE_OPS['Expression'][_m] = _I('Expression.' + _m)
+INLINE_OPS['Expression']['__truediv__'] = _I('Expression.__div__')
+INLINE_OPS['Expression']['__rtruediv__'] = _I('Expression.__rdiv__')
+for _m in ('__add__', '__radd__', '__sub__'):
+    INLINE_OPS['P_Sum'][_m] = _I('Sum.' + _m)
+for _m in ('__mul__', '__rmul__'):
+    INLINE_OPS['P_Product'][_m] = _I('Product.' + _m)
+_E = C['Expression'].methods
 for _m in ('__le__', '__lt__', '__ge__', '__gt__'):
     _E[_m] = _I('Expression.' + _m)
-_S = C['P_Sum'].methods
-for _m in ('__add__', '__radd__', '__sub__', '__bool__'):
-    _S[_m] = _I('Sum.' + _m)
-_P = C['P_Product'].methods
-for _m in ('__mul__', '__rmul__'):
-    _P[_m] = _I('Product.' + _m)
+C['P_Sum'].methods['__bool__'] = _I('Sum.__bool__')
 C['P_QuotientBase'].methods['__bool__'] = _I('QuotientBase.__bool__')
+
+OPS = {'__add__': ('+', False), '__radd__': ('+', True), '__sub__': ('-', False), '__rsub__': ('-', True),
+       '__mul__': ('*', False), '__rmul__': ('*', True), '__neg__': ('neg', False)}
+
+
+class BinaryContract:
+    """CONTRACT of a pymbolic arithmetic overload (verified against the real method in the specs
+    `pymbolic::...`): the result is a well-formed operand whose value is the arithmetic result."""
+    _cache = {}
+
+    def __new__(cls, op, mode):
+        key = (op, mode.m, mode.interpreted)
+        if key in cls._cache:
+            return cls._cache[key]
+        self = object.__new__(cls)
+        cls._cache[key] = self
+        self.op, self.mode = op, mode
+        from .exprs import V as _V
+        self.F = z3.Function('F_op%s_%s' % ({'+': 'add', '-': 'sub', '*': 'mul', 'neg': 'neg'}[op], mode.m), _V, _V, _V)
+        a, b = z3.Consts('a!bc b!bc', _V)
+        self.axiom = z3.ForAll([a, b], z3.Implies(z3.And(mode.wf(a), mode.wf(b)),
+                                                   z3.And(mode.val(self.F(a, b)) == self.value(a, b),
+                                                          mode.wf(self.F(a, b)))), patterns=[self.F(a, b)])
+        return self
+
+    def value(self, a, b):
+        va, vb = self.mode.val(a), self.mode.val(b)
+        return {'+': va + vb, '-': va - vb, '*': self.mode.mul(va, vb), 'neg': -va}[self.op]
+
+    def apply(self, a, b):
+        at, bt = T.lift(a), T.lift(b)
+        r = self.F(at, bt)
+        ctx().assume(z3.Implies(z3.And(self.mode.wf(at), self.mode.wf(bt)),
+                                z3.And(self.mode.val(r) == self.value(at, bt), self.mode.wf(r))))
+        return SV(T, r)
+
+
+def contract_ops(mode):
+    tab = {}
+    for m, (op, rev) in OPS.items():
+        bc = BinaryContract(op, mode)
+        if op == 'neg':
+            tab[m] = lambda self, bc=bc: bc.apply(self, 0)
+        elif rev:
+            tab[m] = lambda self, other, bc=bc: bc.apply(other, self)
+        else:
+            tab[m] = lambda self, other, bc=bc: bc.apply(self, other)
+    return tab
+
+
+def use_ops(kind, mode=None):
+    """install the inlined real overloads ('inline') or their contracts ('contract') on the class models"""
+    for cn in ('Expression', 'P_Sum', 'P_Product'):
+        for m in list(C[cn].methods):
+            if m in OPS or m in ('__truediv__', '__rtruediv__', '__pos__'):
+                del C[cn].methods[m]
+    if kind == 'inline':
+        for cn, tab in INLINE_OPS.items():
+            C[cn].methods.update(tab)
+    else:
+        C['Expression'].methods.update(contract_ops(mode))
+
+
+def op_axioms(mode):
+    return [BinaryContract(op, mode).axiom for op in ('+', '-', '*', 'neg')]
+
+
+use_ops('inline')
 
 
 def product_bool_contract(self):
@@ -62,11 +130,11 @@ def product_bool_contract(self):
     `not bool(p)  =>  val(p) == 0` in both value semantics."""
     b = ctx().fresh(z3.BoolSort(), 'prod_truth')
     ch = field(self.t, PRODS, 'children')
-    ctx().assume(z3.Implies(z3.Not(b), z3.And(MZ.prodv(ch) == 0, MR.prodv(ch) == 0)))
+    ctx().assume(z3.Implies(z3.Not(b), z3.And(MZ.prodv(ch) == 0, MR.prodv(ch) == 0)))      # unused: truthiness goes through exprs.truthy
     return mk_bool(b)
 
 
-_P['__bool__'] = product_bool_contract
+C['P_Product'].methods['__bool__'] = product_bool_contract
 
 pmbl = types.SimpleNamespace(
     is_zero=G['is_zero'], is_nonzero=G['is_nonzero'], is_constant=G['is_constant'],
